@@ -49,7 +49,8 @@ PROPS = {
         "generated": {"cmd": ["consts-extract"], "out": "Gen/SrcConsts.v",
                       "compile": ["Gen/SrcConsts.v", "Properties/C08_consts.v"], "theorem": "C08_consts_agree"},
         "runs": [{"engine": "manager", "args": [], "n_quick": 500, "n_thorough": 40000},
-                 {"engine": "manager", "args": ["-mode", "hang"], "n_quick": 8, "n_thorough": 60}],
+                 {"engine": "manager", "args": ["-mode", "hang"], "n_quick": 8, "n_thorough": 60},
+                 {"engine": "resolver", "args": ["-mode", "eps"], "n_quick": 60, "n_thorough": 6000, "netns": True}],
         "trivial_tags": [r"^e0/"],
         "rule": "random scripts (6-30 ops) on the real endpoint.Manager: 1-3 scripted providers x 0-3 endpoints, probe health flips incl. "
                 "network-unreachable, provider errors (plain/unreachable), clock advances through the manager's testNow hook, queries whose "
@@ -65,12 +66,13 @@ PROPS = {
         "generated": {"cmd": ["consts-extract"], "out": "Gen/SrcConsts.v",
                       "compile": ["Gen/SrcConsts.v", "Properties/C08_consts.v"], "theorem": "C08_consts_agree"},
         "runs": [{"engine": "manager", "args": [], "n_quick": 500, "n_thorough": 40000},
-                 {"engine": "manager", "args": ["-mode", "hang"], "n_quick": 8, "n_thorough": 60}],
+                 {"engine": "manager", "args": ["-mode", "hang"], "n_quick": 8, "n_thorough": 60},
+                 {"engine": "resolver", "args": ["-mode", "eps"], "n_quick": 60, "n_thorough": 6000, "netns": True}],
         "trivial_tags": [r"^e0/"],
         "rule": "same scripts as C08, judged additionally by the deadlock watchdog (a Do / election that does not complete within 2 s "
                 "while the script expects it) and by process crashes; script 0 is the corpus case bootstrap-with-unreachable-provider "
                 "followed by a second query (F2)",
-        "assumptions": ["fair scheduling by the Go runtime for progress", "real probes and HTTP transports replaced by scripted ones"],
+        "assumptions": ["fair scheduling by the Go runtime for progress", "real probes and HTTP transports replaced by scripted ones in the manager engine; the eps engine uses real DoH endpoints, transports and probes"],
     },
     "C10": {
         "proof_files": ["Proofs/ConfigFacts.v", "Proofs/ForwarderLabels.v"],
